@@ -21,7 +21,7 @@ EXPLANATION = (
     "call tree writes no position, timestamp or observation list of the track except one store guarded by a mode "
     "set that excludes the mode constant map-matching passes.")
 ASSUMPTIONS = ["callees are resolved by name with receiver typing from constructors/annotations (DESIGN section 2, effects)"]
-TECHNIQUE = "abstract interpretation of the candidate construction (__mapOnNetwork with an uninterpreted projector) and of the decoder's write-back on a second decoding of the same track (HMM.estimate, bounded case domains); guard dominance and provenance on loop-body paths (F6), index pairing (F3), interprocedural write-effect summaries (F1)"
+TECHNIQUE = "abstract interpretation of the candidate construction (__mapOnNetwork with an uninterpreted projector) and of the decoder's write-back on a second decoding of the same track (HMM.estimate, bounded case domains); abstract interpretation of __distToNode on edge geometries with the repository's Track (C10.I) and of mapOnNetwork with a recording stand-in for the per-track matcher (C10.A); guard dominance and provenance on loop-body paths (F6), index pairing (F3, weighed against C10.I), swapped-argument rule (weighed against C10.A), interprocedural write-effect summaries (F1)"
 
 
 def vr(v):
